@@ -55,6 +55,7 @@ func (d Decryptor) Decrypt(ct *Ciphertext, pt *Plaintext) {
 	ringQ := d.ringQ.AtLevel(level)
 
 	pt.Resize(0, level)
+	pt.Value = pt.Element.Value[0]
 
 	*pt.MetaData = *ct.MetaData
 
